@@ -520,12 +520,26 @@ fn select_to_expr_poll(ts: TokenStream) -> Result<syn::Expr, String> {
     }))
 }
 
-fn select_to_expr(ts: TokenStream) -> Result<syn::Expr, String> {
+/// R8c: `self.m()` with `m` in `cancel` -> the statement that models this arm losing the race
+fn cancelled_stmt(fut: &syn::Expr, cancel: &[String]) -> Option<syn::Stmt> {
+    let syn::Expr::MethodCall(m) = fut else { return None };
+    if !cancel.iter().any(|c| m.method == c) || crate::norm(&m.receiver) != "self" || !m.args.is_empty() {
+        return None;
+    }
+    let f = syn::Ident::new(&format!("vx_cancelled_{}", m.method), proc_macro2::Span::call_site());
+    Some(syn::parse_quote!(self.#f();))
+}
+
+fn select_to_expr(ts: TokenStream, cancel: &[String]) -> Result<syn::Expr, String> {
     let sb: SelectBody = syn::parse2(ts).map_err(|e| format!("unsupported select! shape: {e}"))?;
     let mut acc: Option<syn::Expr> = None;
-    for arm in sb.arms.into_iter().rev() {
+    let losers: Vec<Option<syn::Stmt>> = sb.arms.iter().map(|a| cancelled_stmt(&a.fut, cancel)).collect();
+    let n = sb.arms.len();
+    for (i, arm) in sb.arms.into_iter().enumerate().rev() {
         let SelectArm { pat, fut, body } = arm;
-        let this: syn::Expr = syn::parse_quote!({ let #pat = #fut; #body });
+        // the other arms ran until this one completed: each modelled loser stops between two iterations of its loop
+        let lost: Vec<&syn::Stmt> = (0..n).filter(|j| *j != i).filter_map(|j| losers[j].as_ref()).collect();
+        let this: syn::Expr = syn::parse_quote!({ #(#lost)* let #pat = #fut; #body });
         acc = Some(match acc {
             None => this,
             Some(rest) => {
@@ -546,6 +560,7 @@ struct SelectRewrite {
     n: usize,
     err: Option<String>,
     poll: bool,
+    cancel: Vec<String>,
 }
 fn is_select(m: &syn::Macro) -> bool {
     let p = crate::norm(&m.path);
@@ -555,7 +570,7 @@ impl VisitMut for SelectRewrite {
     fn visit_expr_mut(&mut self, e: &mut syn::Expr) {
         if let syn::Expr::Macro(m) = e {
             if is_select(&m.mac) {
-                match (if self.poll { select_to_expr_poll(m.mac.tokens.clone()) } else { select_to_expr(m.mac.tokens.clone()) }) {
+                match (if self.poll { select_to_expr_poll(m.mac.tokens.clone()) } else { select_to_expr(m.mac.tokens.clone(), &self.cancel) }) {
                     Ok(ne) => {
                         *e = ne;
                         self.n += 1;
@@ -572,7 +587,7 @@ impl VisitMut for SelectRewrite {
     fn visit_stmt_mut(&mut self, s: &mut syn::Stmt) {
         if let syn::Stmt::Macro(m) = s {
             if is_select(&m.mac) {
-                match (if self.poll { select_to_expr_poll(m.mac.tokens.clone()) } else { select_to_expr(m.mac.tokens.clone()) }) {
+                match (if self.poll { select_to_expr_poll(m.mac.tokens.clone()) } else { select_to_expr(m.mac.tokens.clone(), &self.cancel) }) {
                     Ok(ne) => {
                         *s = syn::Stmt::Expr(ne, m.semi_token);
                         self.n += 1;
@@ -587,8 +602,8 @@ impl VisitMut for SelectRewrite {
         visit_mut::visit_stmt_mut(self, s);
     }
 }
-pub fn rewrite_select(block: &mut syn::Block, poll: bool) -> Result<usize, String> {
-    let mut v = SelectRewrite { n: 0, err: None, poll };
+pub fn rewrite_select(block: &mut syn::Block, poll: bool, cancel: &[String]) -> Result<usize, String> {
+    let mut v = SelectRewrite { n: 0, err: None, poll, cancel: cancel.to_vec() };
     v.visit_block_mut(block);
     match v.err {
         Some(e) => Err(e),
